@@ -1,118 +1,16 @@
 import SynRBLModel.Driver.JsonUtil
-import SynRBLModel.Model.Compare
-import SynRBLModel.Model.Decompose
-import SynRBLModel.Model.RuleBased
-import SynRBLModel.Generated.AtomicSymbols
-import SynRBLModel.Generated.RulesManager
-import SynRBLModel.Generated.AutomatedRules
-import SynRBLModel.Generated.BanLists
-/-! Operation table of the driver. -/
+import SynRBLModel.Driver.Ops.Core
+/-! Operation table of the driver: every layer contributes a partial dispatcher `dispatch? : String → Json → Option (R Json)`. -/
 namespace SynRBL.Drv
 open Lean
 
-def parseAtoms (j : Json) : R (List Atom) := do
-  (← toList j).mapM fun a => do
-    match ← toList a with
-    | [z, s, c] => pure ⟨← z.getNat?, ← s.getStr?, ← c.getInt?⟩
-    | _ => throw "atom is not a triple"
-
-def opAnalyse (j : Json) : R Json := do
-  let r ← parseDict (← field j "r")
-  let p ← parseDict (← field j "p")
-  let v := compareDicts r p
-  let d := diffDicts r p
-  let (d', v') := bothSideFix r p v d
-  let w := waterStep d' v'
-  return Json.mkObj [
-    ("verdict", Json.str v.toString), ("diff", dictJ d),
-    ("verdict2", Json.str v'.toString), ("diff2", dictJ d'),
-    ("waters", natJ w.waters), ("formula", dictJ w.formula), ("verdict3", Json.str w.verdict.toString)]
-
-def opDecompose (j : Json) : R Json := do
-  let atoms ← parseAtoms (← field j "atoms")
-  return Json.mkObj [("comp", dictJ (decompose ⟨Generated.atomicSymbols, Generated.symbolFallback⟩ atoms))]
-
-def opCarbonLabel (j : Json) : R Json := do
-  return Json.mkObj [("label", Json.str (carbonLabel (← natF j "rc") (← natF j "pc")).toString)]
-
-def opTables (_ : Json) : R Json := do
-  return Json.mkObj [
-    ("atomicSymbols", listJ (fun (p : Nat × String) => Json.arr #[natJ p.1, Json.str p.2]) Generated.atomicSymbols),
-    ("symbolFallback", optJ Json.str Generated.symbolFallback),
-    ("banList", strListJ Generated.banList),
-    ("rulesManager", listJ (fun r : Rule => Json.mkObj [("smiles", Json.str r.smiles), ("comp", dictJ r.comp),
-        ("absCharge", natJ r.absCharge)]) Generated.rulesManager),
-    ("automatedRules", listJ (fun r : Rule => Json.mkObj [("smiles", Json.str r.smiles), ("comp", dictJ r.comp),
-        ("absCharge", natJ r.absCharge)]) Generated.automatedRules)]
-
-def parseRules (j : Json) : R (List Rule) := do
-  (← toList j).mapM fun r => do
-    let absq := match r.getObjVal? "absCharge" with | .ok v => (v.getNat?.toOption.getD 0) | .error _ => 0
-    pure ⟨← strF r "smiles", ← parseDict (← field r "comp"), absq⟩
-
-/-- `"db": "rulesManager" | "automatedRules"` or an explicit `"rules"` array -/
-def rulesOf (j : Json) : R (List Rule) :=
-  match j.getObjVal? "rules" with
-  | .ok rs => parseRules rs
-  | .error _ =>
-    match j.getObjVal? "db" with
-    | .ok (Json.str "automatedRules") => pure Generated.automatedRules
-    | _ => pure Generated.rulesManager
-
-def solutionJ (s : Solution) : Json :=
-  listJ (fun st : Step => Json.arr #[Json.str st.rule.smiles, natJ st.ratio]) s
-
-def opMatch (j : Json) : R Json := do
-  let rules ← rulesOf j
-  let data ← parseDict (← field j "data")
-  return Json.mkObj [("solutions", listJ solutionJ (matchAll rules data))]
-
-def opConstraint (j : Json) : R Json := do
-  let e : Entry := ⟨str (← strF j "reactants"), str (← strF j "products"),
-    (optF j "added").bind (fun v => v.getStr?.toOption.map str)⟩
-  let ban ← match j.getObjVal? "ban" with
-    | .ok b => do pure ((← strList b).map str)
-    | .error _ => pure (Generated.banList.map str)
-  let (nr, ok) := constraintFit ban e
-  return Json.mkObj [("new_reaction", Json.str nr.toString), ("certain", Json.bool ok)]
-
-def parseCLabel (s : String) : CLabel :=
-  match s with
-  | "balanced" => .balanced | "products" => .products | "reactants" => .reactants | _ => .error
-
-def opRbRow (j : Json) : R Json := do
-  let rules ← rulesOf j
-  let out := rbRow rules (Generated.banList.map str) (str (← strF j "reaction"))
-    (← parseDict (← field j "r")) (← parseDict (← field j "p")) (parseCLabel (← strF j "carbon"))
-  match out with
-  | none => return Json.mkObj [("raises", Json.bool true)]
-  | some o => return Json.mkObj [("reaction", Json.str o.reaction.toString),
-      ("countedBalanced", Json.bool o.countedBalanced), ("applied", Json.bool o.applied),
-      ("solved", Json.bool o.solved)]
-
-def opStr (j : Json) : R Json := do
-  let s := str (← strF j "s")
-  let sub := str (← strF j "sub")
-  return Json.mkObj [
-    ("split", strListJ ((Str.splitOn '.' s).map Str.toString)),
-    ("join", Json.str (Str.joinWith '.' (Str.splitOn '.' s)).toString),
-    ("has", Json.bool (Str.hasInfix sub s)),
-    ("count", natJ (Str.countOcc sub s)),
-    ("remove", Json.str (Str.removeAll sub s).toString),
-    ("ends", Json.bool (Str.endsWith s sub)),
-    ("arrow", strListJ ((splitArrow s).map Str.toString)),
-    ("dropmaps", Json.str (dropColonDigits s).toString)]
+def dispatchers : List (String → Json → Option (R Json)) := [
+  Core.dispatch?
+]
 
 def dispatch (op : String) (j : Json) : R Json :=
-  match op with
-  | "analyse" => opAnalyse j
-  | "decompose" => opDecompose j
-  | "carbonLabel" => opCarbonLabel j
-  | "tables" => opTables j
-  | "match" => opMatch j
-  | "constraint" => opConstraint j
-  | "rbRow" => opRbRow j
-  | "str" => opStr j
-  | _ => throw s!"bad-op {op}"
+  match dispatchers.findSome? (fun d => d op j) with
+  | some r => r
+  | none => throw s!"bad-op {op}"
 
 end SynRBL.Drv
